@@ -11,6 +11,8 @@ clients over 2 keys (a batch sent in one write, a wait for the next deadline, a 
 action the harness waits for >= 3 event-loop iterations (`VERIF LOOP`, no sleeping), then compares with
 the Lean driver `drv_blk` (the code variant, switches read from the source by translator/blocking_consts.py):
 every client's reply stream, the registry dump (`VERIF BLOCKED`), the wake-queue length and both lists.
+The registry / wake-queue part is also driven in-process (harness/src/bin/impl_blk.rs: the real
+`BlockingManager`; bursts of more than 32 requests exercise the drain bound of `process_wakeups`).
 Independently of the model it evaluates the FULL statements on what the implementation showed:
 the multiset equation over all replies + LRANGE, stranded clients, registry = set of waiting clients,
 FIFO order, nil never before the timeout (200/400 ms, harness monotonic clock; +300 ms lateness allowed).
@@ -20,7 +22,7 @@ else is reported as a VIOLATION with a minimised replay.
 
 Developer switches (environment; none is needed for a normal run):
   C13_FINDINGS_OVERRIDE=none|id,id   ignore all / some listed findings (sanity test of the VIOLATION path)
-  C13_MODEL_SWITCHES=a,b,c,d         force the model's quirk switches (sanity test of the correspondence-break path)
+  C13_MODEL_SWITCHES=a,b,c,d,e         force the model's quirk switches (sanity test of the correspondence-break path)
   C13_DEV_REPO=<tree> C13_SERVER_BIN=<binary>   correspondence only (no proof phase, no build) against a patched
                                      scratch tree: switches are read from <tree>, the server is <binary>
 """
@@ -29,7 +31,7 @@ import socket
 import time
 
 from common import *
-from server import Server, Client
+from server import Server, Client, Closed, ProtocolError
 
 sys.path.insert(0, os.path.join(VERIF, "translator"))
 import blocking_consts  # noqa: E402
@@ -203,7 +205,7 @@ class Session:
         self.rep = rep
         self.facts = facts
         self.model = lean_driver("blk")
-        cfg = "cfg %d %d %d %d" % (facts["notify_per_element"], facts["wake_at_push"], facts["unregister_all"], facts["refuse_in_tx"])
+        cfg = "cfg %d %d %d %d %d" % (facts["notify_per_element"], facts["wake_at_push"], facts["unregister_all"], facts["refuse_in_tx"], facts["dedup_keys"])
         if self.model.ask(cfg) != "ok":
             raise InternalError("drv_blk refused: " + cfg)
         self.srv = None
@@ -722,32 +724,52 @@ def gen_action(r, h, allowed_only, timed):
     return ("hangup", r.choice(cands))
 
 
+def guarded(h, body):
+    """a server that stops answering in the middle of a history is an outcome of the history, not of the machinery"""
+    try:
+        return body()
+    except (Closed, ProtocolError, TimeoutError, ConnectionError, BrokenPipeError) as e:
+        alive = h.S.srv.alive()
+        h.fail("server-stopped", "the server %s during this history (%s: %s); log tail: %s"
+               % ("stopped answering" if alive else "process died", type(e).__name__, e, h.S.srv.log_tail(300)), len(h.steps))
+        h.S.start_server()
+        for c in h.clients:
+            c.close()
+        return h
+
+
 def run_random(sess, r, n_actions, nclients, allowed_only, timed, label):
     h = HistoryRun(sess, nclients, label)
-    for _ in range(n_actions):
-        a = gen_action(r, h, allowed_only, timed)
-        if a is None:
-            break
-        res = h.do(a)
-        if res is False:
-            break
-    return h.finish()
+
+    def body():
+        for _ in range(n_actions):
+            a = gen_action(r, h, allowed_only, timed)
+            if a is None:
+                break
+            res = h.do(a)
+            if res is False:
+                break
+        return h.finish()
+    return guarded(h, body)
 
 
 def run_fixed(sess, actions, nclients, label, lenient=False):
     """a given action list; None when an action is not applicable (its client is blocked or gone; nothing to wait for) —
     `lenient` skips such an action instead"""
     h = HistoryRun(sess, nclients, label)
-    for a in actions:
-        res = h.do(a)
-        if res is None and lenient:
-            continue
-        if res is None:
-            h.finish()
-            return None
-        if res is False:
-            break
-    return h.finish()
+
+    def body():
+        for a in actions:
+            res = h.do(a)
+            if res is None and lenient:
+                continue
+            if res is None:
+                h.finish()
+                return None
+            if res is False:
+                break
+        return h.finish()
+    return guarded(h, body)
 
 
 # the witnesses of Props/C13.lean as harness histories: (finding match, clients, actions, oracle kinds that must fail)
@@ -781,6 +803,71 @@ ALPHABET = [
     ("send", 2, [("pop", "L", 0)]),
     ("hangup", 0),
 ]
+
+
+def registry_phase(rep, r, facts, n_seq):
+    """in-process: random operation sequences on the real BlockingManager vs the machine's registry / wake queue
+    (registration through `dataCmd`, `notify`, the drain bound, unregister, the deadline scan); -> disagreements"""
+    impl = impl_driver("blk")
+    model = lean_driver("blk")
+    dis = []
+    try:
+        model.ask("cfg %d %d %d %d %d" % (facts["notify_per_element"], facts["wake_at_push"], facts["unregister_all"], facts["refuse_in_tx"], facts["dedup_keys"]))
+        keys = [b"a", b"b", b"c"]
+
+        def canon(line):
+            if line and line.startswith("reg="):
+                reg, wq = line.split(" ")
+                parts = reg[4:].split(";")
+                return "reg=" + ";".join(sorted(parts)) + " " + wq
+            return line
+        for i in range(n_seq):
+            ops = ["rnew"]
+            burst = (i % 5 == 0)          # more than 32 requests queued: the drain bound of process_wakeups
+            n = r.range(20, 60)
+            if burst:
+                nreg = r.range(34, 45)
+                for cid in range(1, nreg + 1):
+                    ops.append("rreg %d %s %s inf" % (cid + 10, r.choice("LR"), hx(keys[0])))
+                ops += ["rnotify " + hx(keys[0])] * r.range(33, nreg)
+            for j in range(n):
+                x = r.below(100)
+                if x < 35:
+                    ks = [r.choice(keys) for _ in range(r.choice([1, 1, 1, 2, 2, 3]))]
+                    if facts["dedup_keys"]:
+                        ks = list(dict.fromkeys(ks))     # the handler de-duplicates before calling the manager
+                    ops.append("rreg %d %s %s %s" % (r.range(1, 6), r.choice("LR"), "|".join(hx(k) for k in ks), r.choice(["inf", "inf", "past", "future"])))
+                elif x < 60:
+                    ops.append("rnotify " + hx(r.choice(keys)))
+                elif x < 70:
+                    ops.append("rwake")
+                elif x < 80:
+                    ops.append("runreg %d" % r.range(1, 6))
+                elif x < 88:
+                    ops.append("rexpire")
+                elif x < 94:
+                    ops.append("rhas " + hx(r.choice(keys)))
+                else:
+                    ops.append("rdump")
+            if burst:
+                ops += ["rdump", "rwake", "rdump", "rwake", "rdump"]
+            ops.append("rdump")
+            for k, op in enumerate(ops):
+                a, b = impl.ask(op), model.ask(op)
+                if b is None or b == "bad-op":
+                    raise InternalError("drv_blk failed on %r" % op)
+                rep.evaluations += 1
+                rep.count("registry." + op.split(" ")[0])
+                if op == "rwake" and a and a != ".":
+                    rep.nontrivial(("rwake", min(a.count(",") + 1, 33)))
+                if canon(a) != canon(b):
+                    dis.append({"ops": ops[:k + 1], "impl": a, "code": b})
+                    break
+            rep.traces_validated += 1
+    finally:
+        impl.close()
+        model.close()
+    return dis
 
 
 def probes(sess):
@@ -859,7 +946,7 @@ class Verdict:
             rep.count("excluded." + t)
         for kind, det in h.oracle:
             rep.count("oracle." + kind)
-            fs = explain(h, self.findings, det["step"])
+            fs = [] if kind == "server-stopped" else explain(h, self.findings, det["step"])     # a dead server is never excused
             if fs and not h.overrun:
                 for f in fs:
                     self.known.setdefault(f["id"], (f, h, kind, det))
@@ -913,9 +1000,9 @@ def main(tier, seed):
     if any(v is None for v in facts.values()):
         # the generated Lean file contains extraction_failed: the proof phase reports it; run the correspondence with the pinned switches
         facts = {k: (v if v is not None else (32 if k == "wake_batch" else False)) for k, v in facts.items()}
-    if os.environ.get("C13_MODEL_SWITCHES"):         # sanity test of the correspondence-break path, e.g. "1,0,0,0"
-        a, b, c, d = [x == "1" for x in os.environ["C13_MODEL_SWITCHES"].split(",")]
-        facts = dict(facts, notify_per_element=a, wake_at_push=b, unregister_all=c, refuse_in_tx=d)
+    if os.environ.get("C13_MODEL_SWITCHES"):         # sanity test of the correspondence-break path, e.g. "1,0,0,0,0"
+        a, b, c, d, e = [x == "1" for x in os.environ["C13_MODEL_SWITCHES"].split(",")]
+        facts = dict(facts, notify_per_element=a, wake_at_push=b, unregister_all=c, refuse_in_tx=d, dedup_keys=e)
     if os.environ.get("C13_DEV_REPO"):
         import server as _server
         _server.SERVER_BIN = os.environ["C13_SERVER_BIN"]
@@ -925,13 +1012,16 @@ def main(tier, seed):
     else:
         ok, log, errs = proof_phase(rep, families=["blk"])
         build_server()
+        build_harness("blk")
     findings = load_findings()
     # a finding whose repair is visible in the source is expected to be closed
     expected_open = [f for f in findings if not (MATCH_TO_SWITCH.get(f.get("match")) and facts.get(MATCH_TO_SWITCH[f["match"]]))]
     rep.extra["source_switches"] = facts
+    r = Rng(seed)
+    reg_dis = [] if os.environ.get("C13_DEV_REPO") else registry_phase(rep, r.fork("registry"), facts, 150 if tier == "quick" else 3000)
+    rep.extra["registry_disagreements"] = len(reg_dis)
     sess = Session(rep, facts)
     V = Verdict(rep, expected_open)         # a finding whose repair is in the source excuses nothing any more
-    r = Rng(seed)
     t_start = time.time()
     try:
         # 1. corpus: the witnesses of the Lean witness lemmas, on the real server
@@ -1018,6 +1108,9 @@ def main(tier, seed):
         elif not ok:
             rep.violation("proof obligations of C13 no longer check against the regenerated model",
                           {"theorem_errors": errs[:10], "log_tail": log[-3000:]}, no_input=True)
+        elif reg_dis:
+            rep.violation("correspondence of the registry / wake queue (BlockingManager in-process vs Blk) broke (%d sequences)" % len(reg_dis),
+                          {"correspondence": "Ferrous.Blk registry primitives vs ferrous::network::blocking::BlockingManager", "disagreements": reg_dis[:3]}, no_input=True)
         elif V.disagree:
             h = min(V.disagree, key=lambda x: len(x.steps))
             rep.violation("correspondence Blk.step (code variant) vs server broke (%d histories) although the property oracles hold" % len(V.disagree),
